@@ -83,7 +83,7 @@ type reqSpec struct {
 	Expires   int         `json:"expires,omitempty"`
 	Cred      int         `json:"cred"`
 	TEChunked bool        `json:"te_chunked,omitempty"`
-	ShiftSec  int64       `json:"shift_sec,omitempty"` // signing time = now + shift (time mutations only)
+	ShiftSec  int64       `json:"shift_sec,omitempty"`        // signing time = now + shift (time mutations only)
 	CEnc      string      `json:"content_encoding,omitempty"` // stream modes: Content-Encoding value (default "aws-chunked")
 }
 
